@@ -386,9 +386,9 @@ func (r *UnitRun) toTerm(st *State, v Val, t types.Type) string {
 		v.Fn.term = f
 		r.pureClosureAxioms(st, v.Fn.unit, f)
 		if cu := v.Fn.unit; cu.Source != "" || cu.Target != "" {
-			r.bindEdgeGhost(st, cu, f)
+			gh := r.bindEdgeGhost(st, cu, f)
 			// static preconditions of an escaping closure are checked where it is created
-			env := &SpecEnv{run: r, st: st, old: r.entry, bound: map[string]Val{}}
+			env := &SpecEnv{run: r, st: st, old: r.entry, bound: gh}
 			for i, c := range cu.Requires {
 				goal := r.specBool(env, c, "requires of closure "+cu.Name)
 				r.oblige(st, "closure-pre", fmt.Sprintf("%s.%d", cu.Name, i), goal, cu.Lit, "static precondition of escaping closure "+cu.Name+": "+c.Text, c.Tags)
